@@ -185,7 +185,7 @@ def _memo_key(name, prm, ops):
             for i, l in enumerate(info["leaves"])
             if i not in info["arr_idx"]
         )
-        skey = (info["contract"].name, treedef_key(info["treedef"]), statics)
+        skey = (info["contract"].name, treedef_key(info["treedef"]), treedef_key(info["out_tree"]) if "out_tree" in info else None, statics)
     else:
         try:
             hash(st)
